@@ -69,7 +69,12 @@ PmProfileCode == [Unspecified |-> 0, Desktop |-> 1, Mobile |-> 2, Workstation |-
 
 Fadt_Init == [firmware_ctrl |-> Z(4), dsdt |-> Z(4), pm_profile |-> Z(1), acpi_enable |-> Z(1), acpi_disable |-> Z(1),
               gpe0_blk |-> Z(4), gpe1_blk |-> Z(4), gpe0_len |-> Z(1), gpe1_len |-> Z(1), gpe1_base |-> Z(1),
-              flags |-> {}, x_firmware_ctrl |-> Z(8), x_dsdt |-> Z(8)]
+              flags |-> {}, x_firmware_ctrl |-> Z(8), x_dsdt |-> Z(8),
+              \* the remaining fields are public and filled in by direct assignment before finalize() ("set")
+              sci_int |-> Z(2), smi_cmd |-> Z(4), s4bios_req |-> Z(1), pstate_cnt |-> Z(1), pm1a_evt_blk |-> Z(4), pm1b_evt_blk |-> Z(4), pm1a_cnt_blk |-> Z(4), pm1b_cnt_blk |-> Z(4), pm2_cnt_blk |-> Z(4), pm_tmr_blk |-> Z(4),
+              pm1_evt_len |-> Z(1), pm1_cnt_len |-> Z(1), pm2_cnt_len |-> Z(1), pm_tmr_len |-> Z(1), cst_cnt |-> Z(1), p_lvl2_lat |-> Z(2), p_lvl3_lat |-> Z(2), flush_size |-> Z(2), flush_stride |-> Z(2), duty_offset |-> Z(1), duty_width |-> Z(1), day_alrm |-> Z(1), mon_alrm |-> Z(1), century |-> Z(1), iapc_boot_arch |-> Z(2), reset_value |-> Z(1), arm_boot_arch |-> Z(2), hypervisor_vendor_identity |-> Z(8),
+              reset_reg |-> GasZero, x_pm1a_evt_blk |-> GasZero, x_pm1b_evt_blk |-> GasZero, x_pm1a_cnt_blk |-> GasZero, x_pm1b_cnt_blk |-> GasZero, x_pm2_cnt_blk |-> GasZero, x_pm_tmr_blk |-> GasZero, x_gpe0_blk |-> GasZero, x_gpe1_blk |-> GasZero, sleep_control_reg |-> GasZero, sleep_status_reg |-> GasZero]
+FadtGasFields == {"reset_reg", "x_pm1a_evt_blk", "x_pm1b_evt_blk", "x_pm1a_cnt_blk", "x_pm1b_cnt_blk", "x_pm2_cnt_blk", "x_pm_tmr_blk", "x_gpe0_blk", "x_gpe1_blk", "sleep_control_reg", "sleep_status_reg"}
 Fadt_Call(s, c) ==
   CASE c.op = "dsdt_32" -> [s EXCEPT !.dsdt = c.a.v, !.x_dsdt = Z(8)]
     [] c.op = "dsdt_64" -> [s EXCEPT !.dsdt = Z(4), !.x_dsdt = c.a.v]
@@ -81,17 +86,32 @@ Fadt_Call(s, c) ==
     [] c.op = "gpe_info" -> [s EXCEPT !.gpe0_blk = c.a.gpe0_blk, !.gpe1_blk = c.a.gpe1_blk, !.gpe0_len = c.a.gpe0_len,
                                       !.gpe1_len = c.a.gpe1_len, !.gpe1_base = c.a.gpe1_base]
     [] c.op = "preferred_pm_profile" -> [s EXCEPT !.pm_profile = <<PmProfileCode[c.a.v]>>]
+    [] c.op = "set" -> IF c.a.f = "checksum" THEN s                       \* finalize() recomputes it whatever was there
+                       ELSE IF c.a.f = "flags" THEN [s EXCEPT !.flags = BitSet(c.a.v)]
+                       ELSE IF c.a.f \in FadtGasFields THEN [s EXCEPT ![c.a.f] = GasBytes(c.a.v)]
+                       ELSE [s EXCEPT ![c.a.f] = c.a.v]
     [] OTHER -> s                                          \* a refused operation leaves the state as it was
 Fadt_Lay(c, s) == Hdr("FADT", c) \o
-  <<N("firmware_ctrl", s.firmware_ctrl), N("dsdt", s.dsdt), K(Z(1)), N("pm_profile", s.pm_profile), K(Z(2)), K(Z(4)),
-    N("acpi_enable", s.acpi_enable), N("acpi_disable", s.acpi_disable), K(Z(2)),
-    K(Z(24)),                                            \* PM1a/b EVT, PM1a/b CNT, PM2 CNT, PM TMR blocks
-    N("gpe0_blk", s.gpe0_blk), N("gpe1_blk", s.gpe1_blk),
-    K(Z(4)),                                             \* PM1 EVT/CNT, PM2 CNT, PM TMR lengths
-    N("gpe0_len", s.gpe0_len), N("gpe1_len", s.gpe1_len), N("gpe1_base", s.gpe1_base),
-    K(Z(1)), K(Z(8)), K(Z(5)), K(Z(2)), K(Z(1)),         \* CST_CNT; latencies, flush; duty, alarms, century; IAPC; reserved
-    N("flags", BitsLE(s.flags, 4)), K(Z(12)), K(Z(1)), K(Z(2)), N("minor", c.minor),
-    N("x_firmware_ctrl", s.x_firmware_ctrl), N("x_dsdt", s.x_dsdt), K(Z(120)), K(Z(8))>>
+  <<N("firmware_ctrl", s.firmware_ctrl), N("dsdt", s.dsdt), K(Z(1)), N("pm_profile", s.pm_profile), N("sci_int", s.sci_int),
+    N("smi_cmd", s.smi_cmd), N("acpi_enable", s.acpi_enable), N("acpi_disable", s.acpi_disable), N("s4bios_req", s.s4bios_req),
+    N("pstate_cnt", s.pstate_cnt), N("pm1a_evt_blk", s.pm1a_evt_blk), N("pm1b_evt_blk", s.pm1b_evt_blk),
+    N("pm1a_cnt_blk", s.pm1a_cnt_blk), N("pm1b_cnt_blk", s.pm1b_cnt_blk), N("pm2_cnt_blk", s.pm2_cnt_blk),
+    N("pm_tmr_blk", s.pm_tmr_blk), N("gpe0_blk", s.gpe0_blk), N("gpe1_blk", s.gpe1_blk),
+    N("pm1_evt_len", s.pm1_evt_len), N("pm1_cnt_len", s.pm1_cnt_len), N("pm2_cnt_len", s.pm2_cnt_len), N("pm_tmr_len", s.pm_tmr_len),
+    N("gpe0_len", s.gpe0_len), N("gpe1_len", s.gpe1_len), N("gpe1_base", s.gpe1_base), N("cst_cnt", s.cst_cnt),
+    N("p_lvl2_lat", s.p_lvl2_lat), N("p_lvl3_lat", s.p_lvl3_lat), N("flush_size", s.flush_size), N("flush_stride", s.flush_stride),
+    N("duty_offset", s.duty_offset), N("duty_width", s.duty_width), N("day_alrm", s.day_alrm), N("mon_alrm", s.mon_alrm),
+    N("century", s.century), N("iapc_boot_arch", s.iapc_boot_arch), K(Z(1)),
+    N("flags", BitsLE(s.flags, 4)), N("reset_reg", s.reset_reg), N("reset_value", s.reset_value), N("arm_boot_arch", s.arm_boot_arch),
+    N("minor", c.minor), N("x_firmware_ctrl", s.x_firmware_ctrl), N("x_dsdt", s.x_dsdt),
+    N("x_pm1a_evt_blk", s.x_pm1a_evt_blk), N("x_pm1b_evt_blk", s.x_pm1b_evt_blk), N("x_pm1a_cnt_blk", s.x_pm1a_cnt_blk),
+    N("x_pm1b_cnt_blk", s.x_pm1b_cnt_blk), N("x_pm2_cnt_blk", s.x_pm2_cnt_blk), N("x_pm_tmr_blk", s.x_pm_tmr_blk),
+    N("x_gpe0_blk", s.x_gpe0_blk), N("x_gpe1_blk", s.x_gpe1_blk), N("sleep_control_reg", s.sleep_control_reg),
+    N("sleep_status_reg", s.sleep_status_reg), N("hypervisor_vendor_identity", s.hypervisor_vendor_identity)>>
+
+\* FACS: public fields assigned directly
+Facs_Init == [hardware_signature |-> Z(4), waking |-> Z(4), lock |-> Z(4), flags |-> Z(4), x_waking |-> Z(8), ospm_flags |-> Z(4)]
+Facs_Call(s, c) == IF c.op = "set" /\ c.a.f \in DOMAIN s THEN [s EXCEPT ![c.a.f] = c.a.v] ELSE s
 
 TcpaS_Init == [laml |-> Z(8), lasa |-> Z(8), dev_flags |-> {}, int_flags |-> {}, gpe |-> Z(1), gsi |-> Z(4), base |-> GasZero,
                cfg |-> GasZero, seg |-> Z(1), bus |-> Z(1), dev |-> Z(1), fn |-> Z(1)]
@@ -131,9 +151,10 @@ OpRec(ents, op) == ents[CHOOSE i \in 1..Len(ents) : ents[i].op = op]
 \* table layout: named chunks (length and checksum chunks still zero)
 TblLay(kind, c, ents, R) ==
   CASE kind = "BERT" -> Hdr(kind, c) \o <<N("region_len", c.region_len), N("region_base", c.region_base)>>
-    [] kind = "FACS" -> <<K(<<70, 65, 67, 83>>), N("length", Z(4)), N("hw_sig", Z(4)), N("waking", Z(4)), N("lock", Z(4)),
-                          N("flags", Z(4)), N("x_waking", Z(8)), N("facs_version", c.facs_version), K(Z(3)),
-                          N("ospm_flags", Z(4)), K(Z(24))>>
+    [] kind = "FACS" -> LET f == FoldLeft(Facs_Call, Facs_Init, ents) IN
+                        <<K(<<70, 65, 67, 83>>), N("length", Z(4)), N("hw_sig", f.hardware_signature), N("waking", f.waking),
+                          N("lock", f.lock), N("flags", f.flags), N("x_waking", f.x_waking), N("facs_version", c.facs_version),
+                          K(Z(3)), N("ospm_flags", f.ospm_flags), K(Z(24))>>
     [] kind = "RSDP" -> <<K(<<82, 83, 68, 32, 80, 84, 82, 32>>), N("cksum20", <<0>>), N("oem_id", c.oem_id), N("rsdp_rev", <<2>>),
                           N("rsdt", Z(4)), N("length20", Z(4)), N("xsdt", c.xsdt), N("xcksum", <<0>>), K(Z(3))>>
     [] kind = "SPCR" -> Hdr(kind, c) \o
